@@ -38,6 +38,7 @@ import (
 	"github.com/megaease/easegress/pkg/protocols/httpprot/httpstat"
 	"github.com/megaease/easegress/pkg/supervisor"
 	"go.etcd.io/etcd/api/v3/mvccpb"
+	"golang.org/x/crypto/bcrypt"
 	"verif/simkit/sim"
 	"verif/simkit/simnet"
 )
@@ -139,15 +140,17 @@ type c06Chain struct {
 	mux   *mux
 	recs  map[string]*c06Rec
 
-	super    *supervisor.Supervisor
-	mapper   *c06Mapper
-	cfgs     []c06Cfg    // Validator configuration of every generation built so far
-	closedAt []time.Time // when generation i was closed (zero: still live)
-	users    []c06User   // the credential store (etcd) right now
-	epochs   []c06Epoch  // history of the credential store
-	syncers  []*c06Syncer
-	pending  *c06Epoch // a push that has begun and not settled yet
-	jcfg     *c06Cfg   // configuration the request under evaluation is judged by
+	super      *supervisor.Supervisor
+	mapper     *c06Mapper
+	cfgs       []c06Cfg    // Validator configuration of every generation built so far
+	closedAt   []time.Time // when generation i was closed (zero: still live)
+	users      []c06User   // the credential store (etcd) right now
+	epochs     []c06Epoch  // history of the credential store
+	syncers    []*c06Syncer
+	pending    *c06Epoch    // a push that has begun and not settled yet
+	building   int          // generation being created right now (its Validator reads the store)
+	initFailed map[int]bool // generations whose initial read of the store was made to fail
+	jcfg       *c06Cfg      // configuration the request under evaluation is judged by
 }
 
 // c06Epoch is one state of the credential store: it may be in force from
@@ -165,6 +168,7 @@ type c06Syncer struct {
 	ch     chan map[string]string
 	done   chan struct{}
 	closed bool
+	prefix string // the prefix the watcher asked for
 }
 
 func (s *c06Syncer) Sync(string) (<-chan *string, error)             { return nil, nil }
@@ -172,7 +176,10 @@ func (s *c06Syncer) SyncRaw(string) (<-chan *mvccpb.KeyValue, error) { return ni
 func (s *c06Syncer) SyncRawPrefix(string) (<-chan map[string]*mvccpb.KeyValue, error) {
 	return nil, nil
 }
-func (s *c06Syncer) SyncPrefix(string) (<-chan map[string]string, error) { return s.ch, nil }
+func (s *c06Syncer) SyncPrefix(p string) (<-chan map[string]string, error) {
+	s.prefix = p
+	return s.ch, nil
+}
 func (s *c06Syncer) Close() {
 	if !s.closed {
 		s.closed = true
@@ -199,16 +206,80 @@ func c06PipelineYAML(cfg *c06Cfg) string {
 		"filters:\n- name: c06tapa\n  kind: C06Tap\n" + c06ValidatorYAML(cfg) + "- name: c06tapb\n  kind: C06Tap\n- name: c06taprej\n  kind: C06Tap\n"
 }
 
-// kvs renders the credential store as the etcd key/value pairs of the prefix.
+// c06Decoy is a user stored under ANOTHER prefix of the custom data: never a
+// configured user of the Validator.
+var c06Decoy = c06User{Name: "decoy", Pass: "decoy-pass-1", Store: "sha"}
+
+var c06BcryptCache = map[string]string{}
+
+// c06Stored is what htpasswd(1) would write for the user's password.
+func c06Stored(u c06User) string {
+	var salt [8]byte
+	var h uint64 = 1469598103934665603
+	for i := 0; i < len(u.Name); i++ {
+		h = (h ^ uint64(u.Name[i])) * 1099511628211
+	}
+	const itoa64 = "./0123456789ABCDEFGHIJKLMNOPQRSTUVWXYZabcdefghijklmnopqrstuvwxyz"
+	for i := range salt {
+		salt[i] = itoa64[h&63]
+		h = h>>6 | h<<58
+	}
+	switch u.Store {
+	case "sha":
+		return c06HtpasswdSHA(u.Pass)
+	case "apr1":
+		return c06Apr1(u.Pass, string(salt[:]))
+	case "ssha":
+		return c06HtpasswdSSHA(u.Pass, salt[:4])
+	case "bcrypt":
+		// the salt of bcrypt is random: one hash per password and process is enough
+		if s, ok := c06BcryptCache[u.Pass]; ok {
+			return s
+		}
+		b, err := bcrypt.GenerateFromPassword([]byte(u.Pass), bcrypt.MinCost)
+		if err != nil {
+			return c06HtpasswdSHA(u.Pass)
+		}
+		if len(c06BcryptCache) > 4096 {
+			c06BcryptCache = map[string]string{}
+		}
+		c06BcryptCache[u.Pass] = string(b)
+		return string(b)
+	}
+	return u.Pass
+}
+
+func (c *c06Chain) storeDir() string {
+	if b := c.sc.Cfg.Basic; b != nil && b.Prefix == "default" {
+		return "credentials/"
+	}
+	return "c06-users/"
+}
+
+// kvs renders the custom-data part of the etcd tree: the credential store under
+// the configured prefix (with its malformed entries, if any) and an unrelated
+// credential list under another prefix.
 func (c *c06Chain) kvs() map[string]string {
 	out := map[string]string{}
+	dir := "/custom-data/" + c.storeDir()
 	for i, u := range c.users {
-		stored := u.Pass
-		if u.Store == "sha" {
-			stored = c06HtpasswdSHA(u.Pass)
+		stored := c06Stored(u)
+		if u.KeyOnly {
+			// "If username is empty, the value of key entry is used as username"
+			out[fmt.Sprintf("%s%s", dir, u.Name)] = fmt.Sprintf("key: %s\npassword: %s\n", c06Q(u.Name), c06Q(stored))
+			continue
 		}
-		out[fmt.Sprintf("/custom-data/c06-users/k%d", i)] = fmt.Sprintf("key: %s\nusername: %s\npassword: %s\n", c06Q(fmt.Sprintf("k%d", i)), c06Q(u.Name), c06Q(stored))
+		out[fmt.Sprintf("%sk%d", dir, i)] = fmt.Sprintf("key: %s\nusername: %s\npassword: %s\n", c06Q(fmt.Sprintf("k%d", i)), c06Q(u.Name), c06Q(stored))
 	}
+	if b := c.sc.Cfg.Basic; b != nil {
+		if b.Junk >= 1 {
+			out[dir+"junk-nopass"] = "key: \"junk-nopass\"\nusername: \"ghost\"\n"
+		}
+		if b.Junk >= 2 {
+			out[dir+"junk-notyaml"] = "username: [unterminated\n\tpassword"
+		}
+	}
+	out["/custom-data/zz-other-users/k0"] = fmt.Sprintf("key: \"k0\"\nusername: %s\npassword: %s\n", c06Q(c06Decoy.Name), c06Q(c06Stored(c06Decoy)))
 	return out
 }
 
@@ -226,7 +297,9 @@ func (c *c06Chain) push(users []c06User) {
 		}
 		m := map[string]string{}
 		for k, v := range snap {
-			m[k] = v
+			if strings.HasPrefix(k, sy.prefix) {
+				m[k] = v
+			}
 		}
 		select {
 		case sy.ch <- m:
@@ -254,6 +327,7 @@ func (c *c06Chain) newGeneration(cfg c06Cfg) error {
 		return fmt.Errorf("pipeline spec: %v\n%s", err, pyaml)
 	}
 	n := &pipeline.Pipeline{}
+	c.building = c.gen + 1
 	var pv interface{}
 	var st string
 	func() {
@@ -330,30 +404,55 @@ func c06ValidatorYAML(cfg *c06Cfg) string {
 	}
 	if s := cfg.Sig; s != nil {
 		b.WriteString("  signature:\n")
-		if s.TTLs > 0 {
-			fmt.Fprintf(&b, "    ttl: %ds\n", s.TTLs)
+		if ttl := s.ttlNs(); ttl > 0 {
+			switch {
+			case s.TTLForm == "go":
+				fmt.Fprintf(&b, "    ttl: %s\n", time.Duration(ttl).String())
+			case ttl%int64(time.Second) == 0:
+				fmt.Fprintf(&b, "    ttl: %ds\n", ttl/int64(time.Second))
+			default:
+				fmt.Fprintf(&b, "    ttl: %dms\n", ttl/int64(time.Millisecond))
+			}
 		}
 		if s.ExcludeBody {
 			b.WriteString("    excludeBody: true\n")
 		}
 		if s.Aws {
 			l := c06LitAws
-			fmt.Fprintf(&b, "    literal:\n      scopeSuffix: %s\n      algorithmName: %s\n      algorithmValue: %s\n      signedHeaders: %s\n      signature: %s\n      date: %s\n      expires: %s\n      credential: %s\n      contentSha256: %s\n      signingKeyPrefix: %s\n",
-				l.ScopeSuffix, l.AlgorithmName, l.AlgorithmValue, l.SignedHeaders, l.Signature, l.Date, l.Expires, l.Credential, l.ContentSHA256, l.KeyPrefix)
+			fmt.Fprintf(&b, "    literal:\n      scopeSuffix: %s\n      algorithmName: %s\n      algorithmValue: %s\n      signedHeaders: %s\n      signature: %s\n      date: %s\n      expires: %s\n      credential: %s\n      contentSha256: %s\n",
+				l.ScopeSuffix, l.AlgorithmName, l.AlgorithmValue, l.SignedHeaders, l.Signature, l.Date, l.Expires, l.Credential, l.ContentSHA256)
+			if !s.NoPrefix {
+				fmt.Fprintf(&b, "      signingKeyPrefix: %s\n", l.KeyPrefix)
+			}
 		}
-		b.WriteString("    accessKeys:\n")
-		for _, k := range s.Keys {
-			fmt.Fprintf(&b, "      %s: %s\n", c06Q(k[0]), c06Q(k[1]))
+		if s.SignOpts {
+			b.WriteString("    ignoredHeaders: [\"X-Custom-A\", \"Content-Type\", \"Accept\"]\n    headerHoisting:\n      allowedPrefix: [\"X-Me-\", \"X-Amz-\", \"X-Custom-\"]\n      disallowedPrefix: [\"X-Me-Meta-\"]\n      disallowed: [\"X-Me-Date\"]\n")
+		}
+		if s.Cred[0] != "" {
+			fmt.Fprintf(&b, "    accessKeyId: %s\n    accessKeySecret: %s\n", c06Q(s.Cred[0]), c06Q(s.Cred[1]))
+		}
+		if !(s.NoMap && s.Cred[0] != "") {
+			b.WriteString("    accessKeys:\n")
+			for _, k := range s.Keys {
+				fmt.Fprintf(&b, "      %s: %s\n", c06Q(k[0]), c06Q(k[1]))
+			}
 		}
 	}
 	if ba := cfg.Basic; ba != nil {
-		b.WriteString("  basicAuth:\n    mode: ETCD\n    etcdPrefix: c06-users/\n")
+		switch ba.Prefix {
+		case "default":
+			b.WriteString("  basicAuth:\n    mode: ETCD\n")
+		case "slash":
+			b.WriteString("  basicAuth:\n    mode: ETCD\n    etcdPrefix: /c06-users/\n")
+		default:
+			b.WriteString("  basicAuth:\n    mode: ETCD\n    etcdPrefix: c06-users/\n")
+		}
 	}
 	return b.String()
 }
 
 func c06NewChain(r *sim.Run, sc *c06Scenario) (*c06Chain, error) {
-	c := &c06Chain{r: r, sc: sc, recs: map[string]*c06Rec{}}
+	c := &c06Chain{r: r, sc: sc, recs: map[string]*c06Rec{}, initFailed: map[int]bool{}}
 	cfg := &sc.Cfg
 	c.net = simnet.New()
 	simnet.SetDefault(c.net)
@@ -376,6 +475,11 @@ func c06NewChain(r *sim.Run, sc *c06Scenario) (*c06Chain, error) {
 	}
 	c.epochs = []c06Epoch{{users: c.users}}
 	cls.MockedGetPrefix = func(prefix string) (map[string]string, error) {
+		if cfg.Basic != nil && cfg.Basic.InitFail > 0 && cfg.Basic.InitFail-1 == c.building {
+			c.initFailed[c.building] = true
+			r.Fault("c06.etcd_read_error_while_validator_is_created")
+			return nil, fmt.Errorf("etcdserver: request timed out")
+		}
 		out := map[string]string{}
 		for k, v := range c.kvs() {
 			if strings.HasPrefix(k, prefix) {
@@ -418,7 +522,11 @@ func c06NewChain(r *sim.Run, sc *c06Scenario) (*c06Chain, error) {
 	if cfg.SrvMax != 0 {
 		syaml += fmt.Sprintf("clientMaxBodySize: %d\n", cfg.SrvMax)
 	}
-	syaml += "rules:\n- paths:\n  - pathPrefix: /\n    backend: pipe\n"
+	syaml += "rules:\n- paths:\n"
+	if cfg.Rewrite {
+		syaml += "  - pathRegexp: ^/api/(.*)$\n    rewriteTarget: /$1\n    backend: pipe\n"
+	}
+	syaml += "  - pathPrefix: /\n    backend: pipe\n"
 	// the server spec is plain immutable data (no timers, channels or
 	// goroutines): it is built once per process and shared between runs
 	sspec := c06ServerSpecs[syaml]
@@ -484,6 +592,11 @@ func (w *c06Wire) header(name string) (int, string) {
 	return -1, ""
 }
 
+// hasContentLength: the encoder frames the request with a Content-Length header.
+func (w *c06Wire) hasContentLength() bool {
+	return !w.chunked && (len(w.body) > 0 || w.method == "POST" || w.method == "PUT" || w.method == "PATCH")
+}
+
 func (w *c06Wire) setHeader(name, val string) {
 	if i, _ := w.header(name); i >= 0 {
 		w.hdr[i][1] = val
@@ -520,7 +633,7 @@ func (w *c06Wire) encode() []byte {
 		b.WriteString("0\r\n\r\n")
 		return b.Bytes()
 	}
-	if len(w.body) > 0 || w.method == "POST" || w.method == "PUT" || w.method == "PATCH" {
+	if w.hasContentLength() {
 		fmt.Fprintf(&b, "Content-Length: %d\r\n", len(w.body))
 	}
 	b.WriteString("\r\n")
@@ -551,7 +664,18 @@ func c06ReadLine(br *bufio.Reader) (string, error) {
 }
 
 // c06ReadResponse is a strict HTTP/1.1 response reader (length, chunked or close framing).
-func c06ReadResponse(br *bufio.Reader) *c06Resp {
+func c06ReadResponse(br *bufio.Reader, method string) *c06Resp {
+	for {
+		res := c06ReadResponse1(br, method)
+		if res.complete && res.status == 100 {
+			// interim response to Expect: 100-continue
+			continue
+		}
+		return res
+	}
+}
+
+func c06ReadResponse1(br *bufio.Reader, method string) *c06Resp {
 	res := &c06Resp{hdr: http.Header{}}
 	line, err := c06ReadLine(br)
 	if err != nil {
@@ -592,7 +716,7 @@ func c06ReadResponse(br *bufio.Reader) *c06Resp {
 			res.close = true
 		}
 	}
-	if st/100 == 1 || st == 204 || st == 304 {
+	if st/100 == 1 || st == 204 || st == 304 || method == "HEAD" {
 		res.complete = true
 		return res
 	}
@@ -699,7 +823,7 @@ func (c *c06Chain) do(cc **c06Conn, ci int, rec *c06Rec, w *c06Wire, newConn boo
 			conn.c.Write(raw)
 		}()
 		conn.c.SetReadDeadline(time.Now().Add(24 * time.Hour))
-		res := c06ReadResponse(conn.br)
+		res := c06ReadResponse(conn.br, w.method)
 		conn.lastUsed = time.Now()
 		finished := false
 		select {
